@@ -403,6 +403,8 @@ def run(ck):
                       '(desktop-file.c)')
     for v, prog in ck.programs(thorough_variants=('B',)):
         from rules import listops
+        from rules.C10 import c10_12
+        c10_12(ck, prog, 'C19.11')
         rq = ck.rule('C19.10', 'the public list operations do what their names say (dbus/dbus-list.c; abstract interpretation of their CFG over every circular list of 0..3 links with equal and distinct data, every link / anchor / data argument, with and without memory for a new link): resulting order, return value, freed and detached links agree with the specification of append, prepend, insert_after, remove (first match), remove_last / find_last (last match), remove_link, clear, get/pop first/last (link), get_length, length_is_one', 'ABS', breaks='held auto-start messages are delivered out of order or twice: the entries list is not walked in arrival order', floor=15)
         listops.check(prog, rq)
         c19_1(ck, prog)
